@@ -18,3 +18,8 @@ import CoreBGP.Props.C19
 import CoreBGP.Props.C20
 /-! All property modules that are complete (no `sorry`): importing them together checks that their
 helper lemmas do not clash. -/
+import CoreBGP.Props.C01
+import CoreBGP.Props.C10
+import CoreBGP.Props.C10Own
+import CoreBGP.Props.C11
+import CoreBGP.Props.C12L2
